@@ -154,6 +154,7 @@ class Operand:
     def __init__(self, kind, parts, alias, jtype, on, target, inner=1):
         self.kind, self.parts, self.alias, self.jtype, self.on, self.target = kind, parts, alias, jtype, on, target
         self.inner = inner
+        self.integ = ''
 
     def names(self):
         """lower-cased qualifier tuples that denote this operand (specification reading)"""
@@ -180,6 +181,7 @@ class Operand:
         t.append('-' if self.on is None else show_e(self.on))
         t.append('-' if self.target is None else enc(self.target))
         t.append(str(self.inner))
+        t.append(enc(self.integ))
         return ' '.join(t)
 
 
@@ -228,7 +230,11 @@ def operands_of(query, cat):
                     tp = tp[0] if tp else None
                 ops.append(Operand('mod', list(node.parts), alias, jtype, on, tp))
             else:
-                ops.append(Operand('tab', list(node.parts), alias, jtype, on, None))
+                o = Operand('tab', list(node.parts), alias, jtype, on, None)
+                dbs = databases_of(cat)
+                o.integ = (node.parts[0] if len(node.parts) > 1 and node.parts[0] in dbs
+                           else (cat.get('default_namespace') or '')).lower()
+                ops.append(o)
         elif isinstance(node, ast.Select):
             ops.append(Operand('sub', ['t_sub'], alias, jtype, on, None, inner_steps(node)))
         else:
@@ -412,9 +418,15 @@ CATALOGS = [
 ]
 
 
+_DBS = {}
+
+
 def databases_of(cat):
     from mindsdb_sql.planner.query_planner import QueryPlanner
-    return QueryPlanner(**copy.deepcopy(cat)).databases
+    key = json.dumps(cat, sort_keys=True, default=str)
+    if key not in _DBS:
+        _DBS[key] = QueryPlanner(**copy.deepcopy(cat)).databases
+    return _DBS[key]
 
 
 def run_real(sql, cat):
